@@ -41,9 +41,26 @@ def run(idx: Index, rep: Report, tier: str) -> None:
     if not (isinstance(key, ast.Name) and isinstance(val, ast.Name)):
         rep.inconclusive(rule2, "substitution map is not {name: name}", we.loc(subs[0]), construct=norm(subs[0]))
     else:
+        # the scan for the equality (and with it the occurs check) may live in a private helper of the class that
+        # returns (…, variable, value): then the helper is analysed, with its own names for the two
+        scan = we
         tests = [c for c in walk_no_nested(we.node) if isinstance(c, ast.Compare) and len(c.ops) == 1 and isinstance(c.ops[0], (ast.NotIn, ast.In)) and isinstance(c.comparators[0], ast.Name)]
+        def _occurs_in(fn, k):
+            fv = {a.targets[0].id for a in walk_no_nested(fn.node) if isinstance(a, ast.Assign) and isinstance(a.targets[0], ast.Name) and isinstance(a.value, ast.Call) and call_name(a.value) == "get_free_variables"}
+            return [c for c in walk_no_nested(fn.node) if isinstance(c, ast.Compare) and len(c.ops) == 1 and isinstance(c.ops[0], (ast.NotIn, ast.In)) and isinstance(c.comparators[0], ast.Name) and c.comparators[0].id in fv and any(isinstance(x, ast.Name) and x.id == k for x in ast.walk(c.left))]
+
+        if not _occurs_in(we, key.id):
+            from ..rules2 import through_helper
+
+            sim_cls = idx.cls("model.walkers.simplifier.Simplifier")
+            tk, tv = through_helper(sim_cls, we, key.id), through_helper(sim_cls, we, val.id)
+            if tk is not None and tv is not None and tk[0] is tv[0]:
+                scan = tk[0]
+                rep.note_function(scan.qualname)
+                key, val = ast.Name(id=tk[1], ctx=ast.Load()), ast.Name(id=tv[1], ctx=ast.Load())
+                tests = [c for c in walk_no_nested(scan.node) if isinstance(c, ast.Compare) and len(c.ops) == 1 and isinstance(c.ops[0], (ast.NotIn, ast.In)) and isinstance(c.comparators[0], ast.Name)]
         fv_assign = {}
-        for a in walk_no_nested(we.node):
+        for a in walk_no_nested(scan.node):
             if isinstance(a, ast.Assign) and isinstance(a.targets[0], ast.Name) and isinstance(a.value, ast.Call) and call_name(a.value) == "get_free_variables":
                 fv_assign.setdefault(a.targets[0].id, []).append(a)
         occurs = [t for t in tests if t.comparators[0].id in fv_assign and any(isinstance(x, ast.Name) and x.id == key.id for x in ast.walk(t.left))]
